@@ -183,8 +183,17 @@ def install(eng):
         v = args[0]
         from .engine import AbsSet
         if isinstance(v, AbsSet):
-            n = z3.Int(uid('setlen'))
-            st.assume(z3.If(to_bool_term(v.empty), n == 0, n >= 1))
+            # one length term per abstract set (not one per evaluation): two mentions of len(S) are the same term.  The term
+            # carries its own meaning (0 iff empty, else some number >= 1), so nothing has to be assumed on the side - an
+            # assumption made while a hypothesis is being built would be lost
+            n = getattr(v, '_len_sym', None)
+            if n is None:
+                k_ = z3.Int(uid('setlen'))
+                n = z3.If(to_bool_term(v.empty), z3.IntVal(0), z3.If(k_ >= 0, 1 + k_, z3.IntVal(1)))
+                try:
+                    v._len_sym = n
+                except AttributeError:
+                    pass
             return one(st, n)
         if isinstance(v, DictVal):
             return one(st, len(v.d))
@@ -194,6 +203,10 @@ def install(eng):
             ent = eng.find_method(v.cls, '__len__')
             if ent and ent[2] is not None:
                 return eng.call_user(UserFn(ent[0], ent[1], ent[2], v), [], {}, st, node)
+            flds = st.heap[v.oid].fields if isinstance(v, Ref) else v.fields
+            if v.cls == 'ndarray' and 'rows' in flds:
+                # KRec('ndarray', rows=..., dtype=...): an array abstracted to the sequence of its rows (ids) and its dtype
+                return one(st, v_len(flds['rows']))
         if isinstance(v, Opt):
             st = eng.fork_exc(st, b_not(v.isnone), 'TypeError', node)
             v = v.val
@@ -826,6 +839,16 @@ def install(eng):
         f = _fobj(st, args[0])
         if 'writes' in f:
             f['writes'] = simp(num_binop('+', f['writes'], 1, Pending()))
+        if 'log' in f:
+            # KRec('TextIO', log=KView(Str)): the stream is the sequence of the strings written to it, in order
+            v = args[1]
+            if isinstance(v, str):
+                v = z3.StringVal(v)
+            if not (is_z3(v) and z3.is_string(v)):
+                v = z3.String(uid('text'))       # a text the model knows nothing about (str() of an untracked value)
+            nl = v_append(f['log'], v)
+            nl.ekind = f['log'].ekind
+            f['log'] = nl
         return one(st, 0)
 
     @reg('cls:BinaryIO.tell')
@@ -1176,6 +1199,93 @@ def install(eng):
     @reg('log10')
     def _slog10(eng, st, args, kw, node):
         return one(st, LOG10(to_real(args[0])))
+
+    # ------------------------------------------------ formatted values: format(value, spec) as an uninterpreted function per spec skeleton
+    _FMT = {}
+
+    def fmt_app(skeleton, value, embedded):
+        """The text of f'{value:<skeleton>}' where each {} of the skeleton is filled by an embedded value: an application of an
+        uninterpreted function named after the skeleton (which characters CPython prints is not modelled; that equal values and
+        equal embedded parts under the same skeleton print the same text is)"""
+        def term(x):
+            if isinstance(x, bool):
+                raise Unsupported('formatted bool')
+            if isinstance(x, str):
+                return z3.StringVal(x)
+            if is_z3(x) and z3.is_string(x):
+                return x
+            if isinstance(x, int) or is_intlike(x):
+                return z3.ToReal(to_int(x)) if False else to_int(x)
+            return to_real(x)
+        v = term(value)
+        if z3.is_int(v):
+            v = z3.ToReal(v)        # an int and the equal float print the same under 'f' / 'e' / 'g' skeletons; 'd' is its own skeleton
+        es = [term(e) for e in embedded]
+        key = (skeleton, tuple(str(t.sort()) for t in [v] + es))
+        if key not in _FMT:
+            _FMT[key] = z3.Function('pyfmt<%s>%d' % (skeleton, len(_FMT)), *([t.sort() for t in [v] + es] + [z3.StringSort()]))
+        return _FMT[key](v, *es)
+    eng.fmt_app = fmt_app
+
+    @reg('pyfmt')
+    def _pyfmt(eng, st, args, kw, node):
+        if not isinstance(args[0], str):
+            raise Unsupported('pyfmt(skeleton, value, ...): the skeleton is a literal')
+        return one(st, fmt_app(args[0], args[1], list(args[2:])))
+
+    _UF = {}
+
+    def _uf(kind, args):
+        name = args[0]
+        if not isinstance(name, str):
+            raise Unsupported('uf_*(name, ...): the name is a literal')
+        ts = []
+        for x in args[1:]:
+            if isinstance(x, str):
+                ts.append(z3.StringVal(x))
+            elif is_z3(x) and z3.is_string(x):
+                ts.append(x)
+            elif isinstance(x, bool) or (is_z3(x) and z3.is_bool(x)):
+                ts.append(to_bool_term(x))
+            elif isinstance(x, int) or is_intlike(x):
+                ts.append(to_int(x))
+            else:
+                ts.append(to_real(x))
+        rs = {'real': z3.RealSort(), 'int': z3.IntSort(), 'str': z3.StringSort(), 'bool': z3.BoolSort()}[kind]
+        key = (name, kind, tuple(str(t.sort()) for t in ts))
+        if key not in _UF:
+            _UF[key] = z3.Function('uf<%s>%d' % (name, len(_UF)), *([t.sort() for t in ts] + [rs]))
+        return _UF[key](*ts)
+
+    # uninterpreted functions for contracts: uf_real('reduce', row, method) is SOME real number determined by its arguments
+    for _k in ('real', 'int', 'str', 'bool'):
+        def _mk(kind):
+            def f(eng, st, args, kw, node):
+                return one(st, _uf(kind, args))
+            return f
+        reg('uf_' + _k)(_mk(_k))
+
+    _NP_INT = z3.Function('np_is_integer_dtype', z3.IntSort(), z3.BoolSort())
+    _NP_FLT = z3.Function('np_is_floating_dtype', z3.IntSort(), z3.BoolSort())
+    B['np.integer'] = B['numpy.integer'] = 'np.integer'
+    B['np.floating'] = B['numpy.floating'] = 'np.floating'
+
+    @reg('np.issubdtype')
+    @reg('numpy.issubdtype')
+    def _issubdtype(eng, st, args, kw, node):
+        if args[1] == 'np.integer':
+            return one(st, _NP_INT(to_int(args[0])))
+        if args[1] == 'np.floating':
+            return one(st, _NP_FLT(to_int(args[0])))
+        raise Unsupported('np.issubdtype(_, %r)' % (args[1],))
+
+    @reg('np_is_integer')
+    def _np_int(eng, st, args, kw, node):
+        return one(st, _NP_INT(to_int(args[0])))
+
+    @reg('np_is_floating')
+    def _np_flt(eng, st, args, kw, node):
+        return one(st, _NP_FLT(to_int(args[0])))
 
     B['sys.float_info.epsilon'] = fractions.Fraction(1, 2 ** 52)     # binary64 machine epsilon
 
